@@ -83,7 +83,7 @@ theorem recoverPubkey_snoc (cr : Crypto) (msg body : Bytes) (v : UInt8) (hb : bo
     recoverPubkey cr msg (body ++ [v]) =
       if msg.length ≠ 32 then none
       else if (if v > 26 then v - 27 else v) ≥ 4 then none
-      else cr.recover msg (body ++ [if v > 26 then v - 27 else v]) := by
+      else libRecover cr msg (body ++ [if v > 26 then v - 27 else v]) := by
   unfold recoverPubkey
   have hl : (body ++ [v]).length = 65 := by simp [hb]
   have hd : (body ++ [v]).drop 64 = [v] := by rw [← hb]; exact List.drop_left' rfl
